@@ -5,8 +5,8 @@ use std::str;
 use itertools::Itertools;
 use lazy_static::lazy_static;
 use nom::bytes::complete::escaped;
-use nom::combinator::not;
-use nom::multi::{fold_many0, fold_many1};
+use nom::combinator::{map_opt, not};
+use nom::multi::{fold_many0, many1};
 use nom::sequence::{delimited, separated_pair};
 use nom::{
     branch::alt,
@@ -834,23 +834,31 @@ fn is_keyword(c: char) -> bool {
 fn duration_fragment(input: Span) -> IResult<Span, chrono::Duration> {
     let (input, amount) = i64_parse(input)?;
 
-    alt((
-        tag("ns").map(move |_| chrono::Duration::nanoseconds(amount)),
-        tag("us").map(move |_| chrono::Duration::microseconds(amount)),
-        tag("ms").map(move |_| chrono::Duration::milliseconds(amount)),
-        tag("s").map(move |_| chrono::Duration::seconds(amount)),
-        tag("m").map(move |_| chrono::Duration::minutes(amount)),
-        tag("h").map(move |_| chrono::Duration::hours(amount)),
-        tag("d").map(move |_| chrono::Duration::days(amount)),
-        tag("w").map(move |_| chrono::Duration::weeks(amount)),
-    ))
+    // the try_* constructors return None instead of panicking when the amount is out of range
+    map_opt(
+        alt((
+            tag("ns").map(move |_| Some(chrono::Duration::nanoseconds(amount))),
+            tag("us").map(move |_| Some(chrono::Duration::microseconds(amount))),
+            tag("ms").map(move |_| chrono::Duration::try_milliseconds(amount)),
+            tag("s").map(move |_| chrono::Duration::try_seconds(amount)),
+            tag("m").map(move |_| chrono::Duration::try_minutes(amount)),
+            tag("h").map(move |_| chrono::Duration::try_hours(amount)),
+            tag("d").map(move |_| chrono::Duration::try_days(amount)),
+            tag("w").map(move |_| chrono::Duration::try_weeks(amount)),
+        )),
+        |duration| duration,
+    )
     .parse(input)
 }
 
 /// Parses a duration that can be made up of multiple integer/time-suffix values
 fn duration(input: Span) -> IResult<Span, chrono::Duration> {
-    fold_many1(duration_fragment, chrono::Duration::zero, |left, right| {
-        left + right
+    map_opt(many1(duration_fragment), |fragments| {
+        fragments
+            .into_iter()
+            .try_fold(chrono::Duration::zero(), |left, right| {
+                left.checked_add(&right)
+            })
     })(input)
 }
 
